@@ -118,10 +118,14 @@ def stability(here, repo, units, seed):
         vc = os.path.join(here, 'contracts', u + '.vc'); d = tempfile.mkdtemp(prefix='pie_verif_stab_')
         try:
             gen = os.path.join(d, u + '.rs'); meta = weave.generate(repo, vc, gen); text = open(gen).read(); runs = []
-            for sd in ((seed or 0) + 101, (seed or 0) + 202):
-                res = V.run_verus(gen, meta['edition'], meta['verus_args'], sd, 1)
+            # two other solver seeds, and the same text under two other crate names (the crate name changes every mangled symbol and
+            # with it the solver's term order -- what a harmless edit of the source does too; found necessary for Store::reset_task)
+            for sd, crate in (((seed or 0) + 101, u), ((seed or 0) + 202, u), ((seed or 0) + 303, 'zz_' + u), ((seed or 0) + 404, u + '_q7')):
+                f = gen
+                if crate != u: f = os.path.join(d, crate + '.rs'); shutil.copy(gen, f)
+                res = V.run_verus(f, meta['edition'], meta['verus_args'], sd, 1)
                 cls = V.classify(meta, res, text)
-                runs.append({'seed': sd, 'verified': cls['verified'], 'errors': cls['errors'], 'resource_outs': len(cls['resource']), 'wall_s': res['wall_s']})
+                runs.append({'seed': sd, 'crate_name': crate, 'verified': cls['verified'], 'errors': cls['errors'], 'resource_outs': len(cls['resource']), 'wall_s': res['wall_s']})
             return u, runs
         except weave.WeaveError as e:
             return u, [{'error': str(e)[:200]}]
